@@ -3,11 +3,61 @@
 import json
 
 CLAIMED = {
+    "C02": dict(
+        technique="Coq: verified local checker for an untrusted potential certificate over the control-flow skeleton of the whole parser, regenerated from source on every run; obligation discharged by vm_compute",
+        text="Theorem C02_parser_steps_linear: every run of the control-flow skeleton of the whole parser package (168 functions, regenerated from /repo/parser by a Go translator on every run), for every token list and every resolution of its data-dependent branches, halts within E_main + B*tokens steps. Proved once (Skel/SkelSound.v) for any skeleton accepted by the boolean checker; the per-run obligation check_prog skeleton = true is computed in the kernel, so deleting a break arm, removing a progress guard or adding a non-consuming loop breaks the build of Properties/C02.v and names the loop. The real step counter (verif hook) is compared with the proved bound on corpus, mutants, exhaustive short token sequences and nesting probes.",
+        design_ref="DESIGN.md §4 C02",
+        note="Trusted: Coq kernel + vm_compute; the translator's over-approximation argument (the certificate itself is untrusted); sticky EOF of the lexer (C12). Memory bound argued, not proved."),
+    "C04": dict(
+        technique="Coq: verified decision procedure for EXPLAIN tree well-formedness (sound+complete) + proof of count = emitted children on a model of the SELECT printers; extraction-based correspondence and oracle run",
+        text="C04_tree: check_text accepts exactly the texts that are one rooted tree in EXPLAIN AST layout with correct (children N), no Go artefacts and ClickHouse node kinds (sound and complete w.r.t. rendering of rose trees). C04_select: for the SelectQuery, SelectWithUnionQuery (every union tail), inherited-WITH and intersect printers — transcribed with the count code and the emit code kept separate as in Go — the header count equals the number of emitted children for every field combination (iff the parser-established LIMIT BY invariant for SelectQuery), hence the output is a tree. Tied by Go-vs-extracted-model comparison on ASTs built directly (exhaustive 2^16/2^13 field combinations) and by running the extracted verified checker on the real EXPLAIN of every corpus statement.",
+        design_ref="DESIGN.md §4 C04",
+        note="Partial: DDL/ALTER/expression/table printers are covered only by the verified oracle applied to real output (search), not by a model. Trusted: hand-written printer model (validated by correspondence), extraction, node-kind generator."),
+    "C08": dict(
+        technique="Coq proof by induction over expression trees on a hand-written model of the Pratt parser + independent reference printer; three-way extraction correspondence",
+        text="C08_precedence_and_associativity: for every well-formed surface expression tree of the property's language (unbounded depth and operator count) and every follow context, explain_model (parse_model (print e ++ rest)) = reference tree of e (precedence climb OR < AND < NOT < comparison < || < additive < multiplicative < unary minus, left associative, ClickHouse function names, AND/OR/|| chains flattened); plus totality of the model. Tied to the code by comparing code, extracted model and extracted spec on all shapes with up to 3/4 binary operators and random deeper expressions.",
+        design_ref="DESIGN.md §4 C08",
+        note="Trusted: hand-written model of parseExpression & printers (fragment, explicit OutOfFragment elsewhere) validated by correspondence; NOT( and minus-literal folding follow the code/goldens where the property text is silent."),
+    "C10": dict(
+        technique="Coq interleaving theorem instantiated by a shared-write inventory regenerated from source (go/types); obligation by vm_compute; race-detector workload",
+        text="C10_concurrent_calls_behave_as_alone: threads whose shared write set is empty are data-race free and each observes exactly what it observes alone, for every schedule (Conc/Interleave.v); the write set of the library is the inventory of writes to package-level variables and through AST arguments regenerated from /repo on every run, and the obligation 'inventory has no shared write' is computed in the kernel. A new package-level flag, a memoising write into an AST node, a map range in the printer break the obligation and name the site. go build -race workload on distinct trees and on one shared tree compares every result with the sequential baseline.",
+        design_ref="DESIGN.md §4 C10",
+        note="Trusted: the translator's soundness claim (every reachable store is listed) and the hypothesis `conforms` linking Go calls to the abstract action programs; the Go memory model for DRF programs."),
+    "C11": dict(
+        technique="Coq proof of the restore discipline + computed obligations over the regenerated write inventory; snapshot/history harness",
+        text="C11: a temporary edit with deferred restore leaves memory unchanged on normal and panicking exit (and a non-deferred restore leaks on panic); over the inventory regenerated from /repo: every tree write is restored by defer, no package-level write outside init, no map range in post-parse code — hence Explain is read-only and its output a function of the statement alone for every call history. Tied by deep snapshots around Explain/ExplainStatements/json.Marshal, repeated calls, fresh-process comparison after random histories including panicking calls.",
+        design_ref="DESIGN.md §4 C11",
+        note="Trusted: translator inventory; reflection snapshot harness; json.Marshal does not mutate."),
     "C12": dict(
         technique="Coq proof (induction over fuel/measure) on a hand-written model of lexer.go + extraction correspondence",
         text="Machine-checked theorem C12_lexer_total over a Gallina transcription of the whole of lexer/lexer.go: for every byte list the model terminates (no fuel exhaustion, no partial operation), returns exactly one EOF and it is last, at most len+1 tokens, and NextToken stays at EOF. The model is tied to the code on every run by running lexer.Tokenize and the OCaml extraction of the model on the same inputs (exhaustive short strings over a 40-byte alphabet, random, corpus, one large input per scanner) and comparing kind, value, offset, line, column and quoted flag of every token.",
         design_ref="DESIGN.md §4 C12",
-        note="Trusted: Coq kernel + vm_compute; the hand-written model (validated by correspondence, not derived); extraction (ExtrOcamlBasic) and the OCaml/Go harness glue; the generated Unicode/token tables. No axioms (Print Assumptions: closed under the global context)."),
+        note="Trusted: Coq kernel + vm_compute; the hand-written model (validated by correspondence, not derived); extraction (ExtrOcamlBasic) and the OCaml/Go harness glue; the generated Unicode/token tables. No axioms."),
+    "C13": dict(
+        technique="Coq proof of a position invariant over the lexer model against an independent line/column spec + generated message inventory; correspondence and message re-location",
+        text="C13 (a) offsets strictly increase and lie in [1,len], (b) line/column equal those of the designated rune per an independent spec, (c) the position designates the first character of the token for every kind but STRING — all for every byte list over the lexer model; (d) every 'line %d, column %d' message of package parser takes both numbers from the Pos of one token register and the registers are written only in nextToken (generated inventory, computed obligation). Tied by the lexer correspondence and by re-locating every message of Parse on mutated statements in the input's token list.",
+        design_ref="DESIGN.md §4 C13",
+        note="Trusted: lexer model (correspondence), the reading of Offset/EOF (DESIGN §7), the translator argument for (d)."),
+    "C14": dict(
+        technique="Coq refinement proof: model of bufio.Reader over chunked readers simulates the pure byte stream; lifted to the lexer model by a relational (simulation) theorem; extraction correspondence with the real bufio",
+        text="C14_bufio_refines_pure: for every well-behaved chunking (any chunk sizes, empty reads, last bytes with EOF) Peek and ReadRune of the bufio.Reader model return what the pure stream returns and preserve the abstraction — so every client restricted to these two operations, in particular the lexer model (parametric in the stream), produces the same tokens; statements, EXPLAIN and errors are functions of the token list. Tied by comparing the real bufio.Reader with the extracted model on generated operation sequences and Parse over many chunkings with Parse over a string reader.",
+        design_ref="DESIGN.md §4 C14",
+        note="Trusted: transcription of bufio (validated every run); readers returning (0,nil) 100 times in a row are outside the property."),
+    "C15": dict(
+        technique="Coq invariant proof on the bufio + error-tracking reader model (all scripts, all operation sequences); fault-injection harness",
+        text="C15: for every script of reads (errors anywhere, transient or persistent, with or without data) and every sequence of Peek/ReadRune operations, the error-tracking wrapper holds the first non-EOF error any Read returned (monotone); ParseStatements model returns ReadErr when it is set. Tied by the real bufio + wrapper vs extracted model on scripts with error chunks, and Parse over readers failing at every offset with several error kinds (errors.Is must hold).",
+        design_ref="DESIGN.md §4 C15",
+        note="Trusted: bufio transcription; 'returned by the reader' = a Read call made by the parse returned it."),
+    "C16": dict(
+        technique="Coq proof by induction on the ParseStatements loop model with abstract statement parser and cancellation oracle; deterministic cancellation harness",
+        text="C16: for every statement parser with progress, every token list and every cancellation oracle: never cancelled => never a context error and the full result; first done at iteration k => exactly the statements of the first k iterations (a prefix) with the context error; nil error => all input consumed; pre-cancelled => ([], ctx error) unless the input has no token. Tied by driving the real Parse with reader-side cancellation at every byte and poll-side cancellation at every k and checking the allowed outcome set.",
+        design_ref="DESIGN.md §4 C16",
+        note="Trusted: hand-written driver model; progress of the statement parser is C02's theorem."),
+    "C18": dict(
+        technique="Coq proof by mutual induction on type trees over a hand-written model of parseDataType/FormatDataType + independent canonical printer; three-way extraction correspondence",
+        text="C18: for every well-formed type tree of the property's constructor set at any depth, both CAST(x AS T) and x::T show exactly the canonical text (names as written, ', ' separators, string arguments escaped at three levels inside the literal), over the model of parseDataType, parseCast, parseCastOperator, FormatDataType and the cast printer; tokens with any spacing/comments erase to the same token list. Tied by comparing code, extracted model and spec on random type trees covering every parent/child constructor pair, six separator styles and mutants.",
+        design_ref="DESIGN.md §4 C18",
+        note="Trusted: hand-written model incl. an embedded isDataTypeName table (drift shows as disagreement); canonical escaping read off the goldens. Residual exclusion: Tuple(date LineString)."),
 }
 
 NOT_YET = {
